@@ -56,6 +56,7 @@ type VerifStickyTrace struct {
 	Picks          []VerifTP
 	Events         int
 	Other          map[string]int // reports of kinds this shim does not know (scratch instrumentation)
+	Score          []int          // scratch instrumentation: current score, pre-balance score, initializing, performed, fixed
 	Mu             sync.Mutex     // guards the fields above while Plan is still running (watchdog reads)
 }
 
@@ -112,6 +113,14 @@ func VerifStickyPlanOn(inst *VerifSticky, tr *VerifStickyTrace, members map[stri
 			tr.SortUnassigned = append(tr.SortUnassigned, tpOf(a))
 		case "sticky.pick":
 			tr.Picks = append(tr.Picks, tpOf(a))
+		case "sticky.score":
+			b2i := func(b bool) int {
+				if b {
+					return 1
+				}
+				return 0
+			}
+			tr.Score = []int{a[0].(int), a[1].(int), b2i(a[2].(bool)), b2i(a[3].(bool)), a[4].(int)}
 		default:
 			tr.Other[kind]++
 		}
